@@ -195,13 +195,15 @@ theorem aut_assign_sem {env : Env} (he : EnvOK env) {N r : Nat} (hN : 0 < N) {c 
   exact hv t ht
 
 
-/-- the out-of-place data path (`glwe_automorphism(dst, a)` when nothing has to be paid, else aligned copy + in-place form) -/
-theorem autData_sem {env : Env} (he : EnvOK env) {N r : Nat} (hN : 0 < N) {dst a : DCt} (hd : DOK env N r dst) (ha : DOK env N r a)
+/-- the out-of-place data path, with the error constant exposed: `U` is `autU` of the executed call -/
+theorem autData_semU {env : Env} (he : EnvOK env) {N r : Nat} (hN : 0 < N) {dst a : DCt} (hd : DOK env N r dst) (ha : DOK env N r a)
     {m : Ct} (hm : shiftInto env dst.ct a.ct 0 = .ok m) {big : Bool} {key : Ks.Key}
     {s : List Poly} {gInv : Int} {EL KL : ℕ → ℕ → Poly} {Hin Hp : Int}
     (h0 : offsetUnary env dst.ct a.ct = 0 → AutAdm big N a.g key s gInv EL KL Hin Hp dst.g.rank)
     (h1 : ∀ g1, glweLsh N dst.g a.g (unaryShift env dst.ct a.ct 0) = .ok g1 → AutAdm big N g1 key s gInv EL KL Hin Hp g1.rank) :
     ∃ g' U, autData env N big key dst a = .ok g' ∧ GWF N g' ∧ g'.base2k = env.base2k ∧ g'.size = dst.g.size ∧ g'.rank = r ∧
+      (∀ Ua : ℚ, (offsetUnary env dst.ct a.ct = 0 → autU N dst.g.base2k dst.g.size dst.g.rank a.g key s gInv EL ≤ Ua) →
+        (∀ g1, glweLsh N dst.g a.g (unaryShift env dst.ct a.ct 0) = .ok g1 → autU N g1.base2k g1.size g1.rank g1 key s gInv EL ≤ Ua) → U ≤ Ua) ∧
       ∀ t, t < N → Near (decG s g' m.md.logBudget t) (autDecC s N key.p a t) (2 ^ m.md.logBudget)
         ((U + sn r s * trl env.base2k dst.g.size a.g.size (unaryShift env dst.ct a.ct 0)) * ulpG g' m.md.logBudget) := by
   have hsp := unaryShift_spec env dst.ct a.ct m hm 0
@@ -215,7 +217,7 @@ theorem autData_sem {env : Env} (he : EnvOK env) {N r : Nat} (hN : 0 < N) {dst a
     have hb62' : g1.base2k ≤ 62 := by rw [hg1.bk]; exact hb62
     obtain ⟨g', aConv, hok, hconv, gw, hb, hs, hr, hv⟩ := aut_step hN hg1.wf hb1' hb62' hb1' hb62' hadm m.md.logBudget
     refine ⟨g', autU N g1.base2k g1.size g1.rank g1 key s gInv EL, ?_, gw, by rw [hb, hg1.bk], hs.trans sz1, hr.trans hg1.rk,
-      fun t ht => ?_⟩
+      fun Ua _ hu => hu g1 e1, fun t ht => ?_⟩
     · simp only [autData, if_pos hoff, e1, Core.Ops.bind]; exact hok
     · have a1 := hv t ht
       rw [← autU_eq hconv] at a1
@@ -242,7 +244,7 @@ theorem autData_sem {env : Env} (he : EnvOK env) {N r : Nat} (hN : 0 < N) {dst a
       simp only [DCt.ct] at hsp; omega
     obtain ⟨g', aConv, hok, hconv, gw, hb, hs, hr, hv⟩ := aut_step (sout := dst.g.size) hN ha.wf hb1' hb62' hbd1 hbd62 hadm m.md.logBudget
     refine ⟨g', autU N dst.g.base2k dst.g.size dst.g.rank a.g key s gInv EL, ?_, gw, by rw [hb, hd.bk], hs, by rw [hr, hd.rk],
-      fun t ht => ?_⟩
+      fun Ua hu _ => hu h0', fun t ht => ?_⟩
     · simp only [autData, h0', ne_eq, not_true_eq_false, if_false]; exact hok
     · have a1 := hv t ht
       rw [← autU_eq hconv] at a1
@@ -255,6 +257,18 @@ theorem autData_sem {env : Env} (he : EnvOK env) {N r : Nat} (hN : 0 < N) {dst a
         + sn r s * trl env.base2k dst.g.size a.g.size (unaryShift env dst.ct a.ct 0)) * ulpG g' m.md.logBudget by nlinarith)
       simpa [autDecC, autDecG, hβ] using a2
 
+
+/-- the out-of-place data path (`glwe_automorphism(dst, a)` when nothing has to be paid, else aligned copy + in-place form) -/
+theorem autData_sem {env : Env} (he : EnvOK env) {N r : Nat} (hN : 0 < N) {dst a : DCt} (hd : DOK env N r dst) (ha : DOK env N r a)
+    {m : Ct} (hm : shiftInto env dst.ct a.ct 0 = .ok m) {big : Bool} {key : Ks.Key}
+    {s : List Poly} {gInv : Int} {EL KL : ℕ → ℕ → Poly} {Hin Hp : Int}
+    (h0 : offsetUnary env dst.ct a.ct = 0 → AutAdm big N a.g key s gInv EL KL Hin Hp dst.g.rank)
+    (h1 : ∀ g1, glweLsh N dst.g a.g (unaryShift env dst.ct a.ct 0) = .ok g1 → AutAdm big N g1 key s gInv EL KL Hin Hp g1.rank) :
+    ∃ g' U, autData env N big key dst a = .ok g' ∧ GWF N g' ∧ g'.base2k = env.base2k ∧ g'.size = dst.g.size ∧ g'.rank = r ∧
+      ∀ t, t < N → Near (decG s g' m.md.logBudget t) (autDecC s N key.p a t) (2 ^ m.md.logBudget)
+        ((U + sn r s * trl env.base2k dst.g.size a.g.size (unaryShift env dst.ct a.ct 0)) * ulpG g' m.md.logBudget) := by
+  obtain ⟨g', U, h1', h2, h3, h4, h5, _, h7⟩ := autData_semU he hN hd ha hm h0 h1
+  exact ⟨g', U, h1', h2, h3, h4, h5, h7⟩
 
 /-- **`ckks_rotate_assign`**, no contract (key admissibility `AutAdm` apart) -/
 theorem dRotateAssign_sem {env : Env} (he : EnvOK env) {N r : Nat} (hN : 0 < N) {c : DCt} (hc : DOK env N r c) {big : Bool} {ks : AutKeys}
